@@ -438,7 +438,13 @@ func handoverCase(c *h.Case) {
 	R := old.RunID
 	var regs []*msg.NewProxy
 	for i := 0; i < nNames; i++ {
-		regs = append(regs, &msg.NewProxy{ProxyName: fmt.Sprintf("%sh%d", pfx, i), ProxyType: "stcp", Sk: "k", AllowUsers: []string{"*"}})
+		// stcp and sudp are the same kind of object for the server (a named visitor listener), but each has
+		// its own Close path: alternate so that both are taken through re-login and re-registration
+		typ := "stcp"
+		if (c.Idx+i)%2 == 1 {
+			typ = "sudp"
+		}
+		regs = append(regs, &msg.NewProxy{ProxyName: fmt.Sprintf("%sh%d", pfx, i), ProxyType: typ, Sk: "k", AllowUsers: []string{"*"}})
 	}
 	tcpPort := 0
 	if withTCP {
@@ -669,7 +675,7 @@ func handoverCase(c *h.Case) {
 		}
 		check := func(phase string) {
 			for _, m := range regs {
-				if m.ProxyType != "stcp" {
+				if m.ProxyType == "tcp" {
 					id, err := h.AskIdent(fmt.Sprintf("127.0.0.1:%d", tcpPort), 8*time.Second)
 					if err != nil || !strings.HasPrefix(id, "S2|") {
 						c.Violation("handover-traffic-not-new-session", "%s: tcp proxy of run id %s answered by %q (err %v), want the new session S2", phase, R, id, err)
@@ -752,7 +758,7 @@ func handoverCase(c *h.Case) {
 			}
 		}
 		for _, m := range regs {
-			if m.ProxyType != "stcp" {
+			if m.ProxyType == "tcp" {
 				continue
 			}
 			ts := time.Now().Unix()
